@@ -10,6 +10,4 @@ CONSTANTS
   GrantLists = {}
   Emit = FALSE
 INVARIANTS CoreReadOnly SystemOnly OnlyEntitled LayersEqualDecision UiAgrees CapInjective
-CONSTRAINT HighWater
-POSTCONDITION TraceAccepted
 CHECK_DEADLOCK FALSE
